@@ -236,3 +236,16 @@ Definition read_mmap (f : list Z) : result lasfile :=
 (* las.<dim>[i] = v through the map: the bytes `bs` of the (byte-aligned) field that holds the
    dimension, at byte `o` of record `i`, are stored in place *)
 Definition mmap_set (f : list Z) (off ps i o : Z) (bs : list Z) : list Z := write_at f (off + i * ps + o) bs.
+
+(* ------------------------------------------------------------------------------------ *)
+(* the files the independence theorems speak about                                       *)
+(* ------------------------------------------------------------------------------------ *)
+(* every point the header announces is in the file *)
+Definition points_present (f : list Z) (rh : rheader) : Prop :=
+  rh_offset rh + Z.max 0 (h_count rh) * rh_psize rh <= len f.
+(* f is a byte string whose header parses to rh (EVLRs not looked at), uncompressed, with all its points *)
+Definition laid_out (f : list Z) (rh : rheader) : Prop :=
+  dec_header f false = Ok rh /\ bytes_ok f = true /\ rh_compressed rh = false /\ 0 < rh_psize rh /\ points_present f rh.
+(* the first EVLR starts right after the last point: what a source that cannot seek has to assume *)
+Definition evlrs_adjacent (rh : rheader) : Prop :=
+  h_minor rh >= 4 -> h_nev rh > 0 -> h_evstart rh = rh_offset rh + Z.max 0 (h_count rh) * rh_psize rh.
